@@ -16,34 +16,36 @@ Definition u1_ok (A : agent) : bool :=
   negb (pp_pc (a_pc A) (a_stack A) || match a_pc A with P1 => true | _ => false end) || negb (a_multi A).
 
 Lemma micro_u1 c me A S o :
-  micro c me A S = Some o -> u1_ok A = true ->
+  micro c me A S = Some o -> ctl_ok A = true -> u1_ok A = true ->
   u1_ok (o_a o) = true /\ (forall a' A', o_new o = Some (a', A') -> u1_ok A' = true).
 Proof.
-  intros H U. destruct A as [role alive multi sid tok pc stack R notified parked].
+  intros H Q U. destruct A as [role alive multi sid tok pc stack R notified parked].
   unfold u1_ok in *. cbn in U.
   destruct pc; micro_cases H; cbn [o_a o_new];
     (split; [|let an := fresh "an" in let An := fresh "An" in let X := fresh "X" in
               intros an An X; try discriminate X; injection X as <- <-; reflexivity]);
-    unfold popret; cbn;
+    pre_case Q Q1 Q2 Q3; cbn in U |- *;
     first [ reflexivity | exact U
-          | destruct stack as [|k st]; cbn in U |- *; first [reflexivity | exact U
-              | destruct k; cbn in U |- *; first [reflexivity | exact U | destruct st; cbn in U |- *; first [reflexivity | exact U]]]
-          | destruct multi; cbn in U |- *; first [reflexivity | discriminate U | exact U] ].
+          | destruct multi; cbn in U |- *; first [reflexivity | discriminate U | exact U]
+          | try split_frame Q1 Q2; cbn in U |- *;
+            first [ reflexivity | exact U
+                  | destruct multi; cbn in U |- *; first [reflexivity | discriminate U | exact U] ] ].
 Qed.
 
 Lemma micro_pp c me A S o :
-  micro c me A S = Some o -> pp_pc (a_pc (o_a o)) (a_stack (o_a o)) = true ->
+  micro c me A S = Some o -> ctl_ok A = true -> pp_pc (a_pc (o_a o)) (a_stack (o_a o)) = true ->
   (a_pc A = P1 /\ r_h (a_r (o_a o)) = head S /\ head (o_s o) = head S) \/
   (pp_pc (a_pc A) (a_stack A) = true /\ r_h (a_r (o_a o)) = r_h (a_r A) /\ head (o_s o) = head S).
 Proof.
-  intros H. destruct A as [role alive multi sid tok pc stack R notified parked].
-  destruct pc; micro_cases H; cbn [o_a o_s]; unfold popret; cbn;
+  intros H Q. destruct A as [role alive multi sid tok pc stack R notified parked].
+  destruct pc; micro_cases H; cbn [o_a o_s];
+    pre_case Q Q1 Q2 Q3;
     first [ discriminate
           | intros _; left; repeat split; reflexivity
           | intros X; right; repeat split; first [reflexivity | exact X]
-          | destruct stack as [|k st]; cbn; first [discriminate | intros X; right; repeat split; first [reflexivity | exact X]
-              | destruct k; cbn; first [discriminate | intros X; right; repeat split; first [reflexivity | exact X]
-                  | destruct st; cbn; first [discriminate | intros X; right; repeat split; first [reflexivity | exact X]]]] ].
+          | try split_frame Q1 Q2;
+            first [ discriminate
+                  | intros X; right; repeat split; first [reflexivity | exact X] ] ].
 Qed.
 
 (* an agent inside the body of try_send (or in the scan it calls) is a counted sender *)
